@@ -329,8 +329,14 @@ def _judge_refine(inputs: list, output: list, lengths: dict, mode: str, label: s
     starts = [o[1] for o in output]
     if starts != sorted(starts):
         failures.append(("refine_sorted", {"call": label, "output": output}))
-    if len(set(output)) != len(output):
-        failures.append(("refine_invented_hit", {"call": label, "output": output, "problem": "duplicate"}))
+    for out in sorted(set(output)):
+        if output.count(out) > 1:
+            same = [x for x in inputs if x[0] == out[0] and _ov(x, out) >= 1]
+            failures.append(("refine_invented_hit", {
+                "call": label, "mode": mode, "hit": list(out), "output": [list(o) for o in output],
+                "problem": "returned twice",
+                "nested_same_profile_pairs": [[list(a), list(b)] for a in same for b in same
+                                              if a != b and a[1] <= b[1] and b[2] <= a[2]][:6]}))
     invented = []
     for out in output:
         if not _legal_output(out, inputs, lengths):
@@ -1312,18 +1318,18 @@ def run(ctx) -> None:
     # complete for <= 2 (quick) / <= 3 (thorough) hits; beyond that every k-th set, the offset moves with the seed
     ctx.enum("refine_enum", enum_refine(ctx.pick(2, 3)), shards=shards)
     if ctx.thorough:
-        ctx.enum("refine_enum_sampled", enum_refine_sampled(4, 23, ctx.seed % 23), shards=shards, exhaustive=False)
+        ctx.enum("refine_enum_sampled", enum_refine_sampled(4, 37, ctx.seed % 37), shards=shards, exhaustive=False)
     else:
         ctx.enum("refine_enum_sampled", enum_refine_sampled(3, 11, ctx.seed % 11), shards=shards, exhaustive=False)
     ctx.enum("hmmer_enum", enum_hmmer(ctx.pick(2, 3)), shards=shards)
-    ctx.hyp("refine", refine_specs(), max_examples=ctx.pick(6000, 160000), shards=rand_shards)
-    ctx.hyp("hmmer", hmmer_specs(), max_examples=ctx.pick(2400, 48000), shards=rand_shards)
-    ctx.hyp("filter", filter_specs(), max_examples=ctx.pick(2400, 64000), shards=rand_shards)
-    ctx.hyp("docking", docking_specs(), max_examples=ctx.pick(800, 12000), shards=rand_shards)
+    ctx.hyp("refine", refine_specs(), max_examples=ctx.pick(6000, 100000), shards=rand_shards)
+    ctx.hyp("hmmer", hmmer_specs(), max_examples=ctx.pick(2400, 32000), shards=rand_shards)
+    ctx.hyp("filter", filter_specs(), max_examples=ctx.pick(2400, 40000), shards=rand_shards)
+    ctx.hyp("docking", docking_specs(), max_examples=ctx.pick(800, 8000), shards=rand_shards)
     ctx.extra["bounds"] = {
         "refine_enum": f"all sets of <= {ctx.pick(2, 3)} distinct hits over grid {GRID}, profiles pA (10) and pB (20), "
                        "scores 10/20, both modes, all input orders",
-        "refine_enum_sampled": ("every 23rd set of 4 hits" if ctx.thorough else "every 11th set of 3 hits")
+        "refine_enum_sampled": ("every 37th set of 4 hits" if ctx.thorough else "every 11th set of 3 hits")
                                + " of the same grid (offset = seed), modes alternating",
         "hmmer_enum": f"all sets of <= {ctx.pick(2, 3)} hits over grid [0, 3, 5, 6, 8, 12], 2 profiles, 2 scores, "
                       "overlap_limit 3, all input orders",
